@@ -39,7 +39,10 @@ def check_linear_program(ctx, line, sp, events, profile, stage):
             'has_mat_leaf': 'yes' if '"t": "mat"' in json.dumps(e) else 'no'}
     detail0 = {'stage': stage, 'line': line, 'profile': profile, 'big': sp.big}
     nontriv = U.n_comb(e) >= 1
-    op = U.build(e, sp)
+    try:
+        op = U.build(e, sp)
+    except Exception:
+        return          # an expression the library cannot build is C04's business
     if not op.is_linear:
         return          # flag problems belong to C04
     try:
